@@ -205,10 +205,10 @@ def registry_phase(run, tier, wd, binary):
     rd = os.path.join(wd, "reg")
     os.makedirs(rd)
     vlib.stage_specs(rd, ["Registry.tla", "MCRegistry.tla", "TraceRegistry.tla", "MCRegistryTrace.tla"])
-    consts = dict(Objects="{1, 2, 3, 4, 5}", NameOf="<- NameOfDef", MaxOps=4 if tier == "quick" else 5)
+    consts = dict(Objects="{1, 2, 3, 4, 5, 6, 7}", NameOf="<- NameOfDef", MaxOps=4 if tier == "quick" else 5)
     vlib.write_cfg(os.path.join(rd, "r.cfg"), constants=consts, spec="Spec", invariants=["C07_OnePerName", "Export"], properties=["C07_FirstWins"])
     r = vlib.run_tlc(rd, "MCRegistry", "r.cfg", workers=4, timeout=1800, jvm=vlib.JVM_BIG)
-    run.add_model_run("Registry: every registration / lookup sequence of %s operations over 5 objects (3 names)" % consts["MaxOps"], r)
+    run.add_model_run("Registry: every registration / lookup sequence of %s operations over 7 objects (4 names; two objects are field-less types that share their address)" % consts["MaxOps"], r)
     if not r.ok:
         raise vlib.Infra("Registry.tla: %s" % r.violated)
     hists = [json.loads(json.loads('"' + m + '"')) for m in re.findall(r'<<"REGHIST", "(.*)">>', r.out)]
